@@ -150,7 +150,7 @@ func (u *Universe) plans(st *SpecTables) map[string]*PropPlan {
 		{Func: "v2m.Environmental.Score", Families: []string{"adjgrid", "adjtemp", "final", "final0", "none", "none0"}},
 	}
 	P["C06"] = &PropPlan{ID: "C06", Title: "scores lie on the tenth grid in range; severity is the band of the same level's score",
-		Units: cat(v3(), v2(), scoreUnitsV3, scoreUnitsV2, []Unit{
+		Units: cat(v3(), v2(), vecV3, vecV2, scoreUnitsV3, scoreUnitsV2, []Unit{
 			{Func: "v3m.roundUp"}, // symbolic contract over all doubles in [0,10]: thorough tier only (minutes on cvc5)
 			{Func: "v3m.severity"}, {Func: "v3m.Severity.String"},
 			{Func: "v3m.Base.Severity", Families: []string{"sev"}}, {Func: "v3m.Temporal.Severity", Families: []string{"sev"}}, {Func: "v3m.Environmental.Severity", Families: []string{"sev"}},
@@ -159,15 +159,15 @@ func (u *Universe) plans(st *SpecTables) map[string]*PropPlan {
 			{Func: "v2m.Base.Severity", Families: []string{"sev"}}, {Func: "v2m.Temporal.Severity", Families: []string{"sev"}}, {Func: "v2m.Environmental.Severity", Families: []string{"sev"}},
 			{Lemma: "v3_grid_prints"},
 		}),
-		Assumptions: []string{"A5", "A9", "A10"},
-		Meta: []string{"Grid and range: every Score() postcondition of the score families has the form result === tenth(k) (v3) or result fp-equal to a nearest tenth with explicit range bounds (v2), with 0 <= k <= 100 (v2 environmental: -20..100 where the FIRST equation itself is negative); invalid objects score +0.0 ([C12] postconditions). Severity(): for every grid value ks of the same level's Score() (replace family over 0..100, v2 incl. -0.0) the result is the rating band of ks; a Severity() that consults another level's score does not reach the replaced call and fails the cut-point obligation. Printing: strconv.FormatFloat of each of the 101 grid doubles is the decimal with at most one digit (oracle table produced by the real function in this run)."},
+		Assumptions: []string{"A1", "A2", "A3", "A4", "A5", "A9", "A10"},
+		Meta: []string{"The statement quantifies over vectors: the decoders of both versions are part of the plan (fields per C09, frames of Decode), so a decoder that lets stale state into a reused receiver fails here too. Grid and range: every Score() postcondition of the score families has the form result === tenth(k) (v3) or result fp-equal to a nearest tenth with explicit range bounds (v2), with 0 <= k <= 100 (v2 environmental: -20..100 where the FIRST equation itself is negative); invalid objects score +0.0 ([C12] postconditions). Severity(): for every grid value ks of the same level's Score() (replace family over 0..100, v2 incl. -0.0) the result is the rating band of ks; a Severity() that consults another level's score does not reach the replaced call and fails the cut-point obligation. Printing: strconv.FormatFloat of each of the 101 grid doubles is the decimal with at most one digit (oracle table produced by the real function in this run)."},
 	}
 	P["C13"] = &PropPlan{ID: "C13", Title: "Not Defined neutrality; temporal never exceeds base",
-		Units: cat(v3("E", "RL", "RC", "CR", "IR", "AR", "MAV", "MAC", "MPR", "MUI", "MS", "MC", "MI", "MA"), v2("E", "RL", "RC", "TD", "CDP"), scoreUnitsV3, scoreUnitsV2, []Unit{
+		Units: cat(v3("E", "RL", "RC", "CR", "IR", "AR", "MAV", "MAC", "MPR", "MUI", "MS", "MC", "MI", "MA"), v2("E", "RL", "RC", "TD", "CDP"), vecV3, vecV2, scoreUnitsV3, scoreUnitsV2, []Unit{
 			{Lemma: "v3_env_neutral"}, {Lemma: "v3_eff_neutral"}, {Lemma: "v3_temporal_neutral"}, {Lemma: "v3_temporal_le_base"},
 		}),
-		Assumptions: []string{"A5", "A9", "A10"},
-		Meta: []string{"v3/v2 temporal with E, RL, RC Not Defined equals the base score and temporal <= base: conjuncts of the temporal families' postconditions (result === tenth(kb) when all three are Not Defined; v3_outer_k(kb,...) <= kb; v2: result <= tenth(kb)). v3 environmental with all environmental metrics Not Defined: the Modified*.Value contracts give the base weights (lemma v3_eff_neutral), lemma family v3_env_neutral (5,184 instances, spec side) shows equal zero cut-off and equal inner Roundup unless scope changed and version 3.1, and the outer stage is the same function v3_outer_k as the temporal score; with C03 and C02 this is environmental == temporal. v2 Target Distribution None => 0: conjunct of the final-stage families."},
+		Assumptions: []string{"A1", "A2", "A3", "A4", "A5", "A9", "A10"},
+		Meta: []string{"The statement quantifies over vectors: the decoders of both versions are part of the plan (unwritten metrics ARE Not Defined after Decode; frames of Decode). v3/v2 temporal with E, RL, RC Not Defined equals the base score and temporal <= base: conjuncts of the temporal families' postconditions (result === tenth(kb) when all three are Not Defined; v3_outer_k(kb,...) <= kb; v2: result <= tenth(kb)). v3 environmental with all environmental metrics Not Defined: the Modified*.Value contracts give the base weights (lemma v3_eff_neutral), lemma family v3_env_neutral (5,184 instances, spec side) shows equal zero cut-off and equal inner Roundup unless scope changed and version 3.1, and the outer stage is the same function v3_outer_k as the temporal score; with C03 and C02 this is environmental == temporal. v2 Target Distribution None => 0: conjunct of the final-stage families."},
 	}
 	rtLemmas := func(v string, f *SpecFamily) []Unit {
 		var out []Unit
